@@ -123,6 +123,8 @@ func c03(c *Check) {
 
 	c.Rule("C03/hook-failure-not-swallowed", "CallEVMWithData: ApplyMessage errors reject; a PostTxProcessing error marks the response failed; every success return is dominated by !res.Failed()", 4)
 	evmHookRule(c, "C03/hook-failure-not-swallowed")
+	c.Rule("C03/tss-relay-authenticated-by-signer", "packets and acknowledgements of a TSS-secured counterparty are accepted on the identity of the transaction signer alone (msg.Signer handed to the TSS client exactly when the client type is TSS): otherwise anybody can mint without escrow or obtain a refund for a delivered packet", 2)
+	tssProofRule(c, "C03/tss-relay-authenticated-by-signer")
 
 	c.Rule("C03/only-packet-contract-events", "frozen table (shared with C04/hook): a packet commitment is created only for a PacketSent log emitted by the packet contract address itself — a look-alike event from another contract would create a deliverable packet with nothing escrowed", 5)
 	c.FrozenFiltered("C04", "C03/only-packet-contract-events", func(fn string) bool { return strings.HasSuffix(fn, "Hooks.PostTxProcessing") })
